@@ -269,6 +269,12 @@ def translate(repo):
         and re.search(r'letmut(\w+)=SrvContext::<F,S>::new\(\w+,\w+,\w+\);self\.remap_ctx_ids\(&mut\1\)\?;', srv_sync))
     if not t['server_remaps_by_nodeid']:
         raise TranslateError('Server::handle_message no longer remaps the context by header nodeid right after building it')
+    # the async twin of the dispatcher (feature async-io) builds its own context and must remap it the same way; the harness
+    # calls the Vfs directly, so this is read from the source (audit6: reported as a broken tie, the histories still run)
+    srv_async = norm(rd('src/api/server/async_io.rs'))
+    t['async_server_remaps_by_nodeid'] = bool(re.search(r'letmut(\w+)=SrvContext::<F,S>::new\(\w+,\w+,\w+\);self\.remap_ctx_ids\(&mut\1\)\?;', srv_async))
+    if not t['async_server_remaps_by_nodeid']:
+        t['errors'].append('Server::async_handle_message does not remap the context by header nodeid right after building it: requests served through the async dispatcher reach the backends with untranslated caller ids')
     return t
 
 def emit_coq(t):
